@@ -88,6 +88,13 @@ def gen_cases(tier, seed):
                     for x0 in ("zero", "ones"):
                         cases.append(dict(kind="cg", n=n, spectrum="three", U=U, b="complex", x0=x0, P=P, asfn=asfn,
                                           max_iter="n", tol=0, xlayout="strided"))
+    # A given as a composite Linop built from a complex matrix and its adjoint (M.H * M + lam * I and M.N + lam * I):
+    # the operator object is applied many times during one solve, so state it carries between applications matters
+    for n in (2, 3, 5):
+        for comp in ("MH*M", "M.N"):
+            for P in ("none", "jacobi"):
+                cases.append(dict(kind="cg", n=n, spectrum="three", U="dft", b="complex", x0="zero", P=P, asfn=False,
+                                  max_iter="n+2", tol=0, composite=comp))
     # systems far from unit scale: CG is invariant under A -> sA, b -> tb (iterates scale by t/s)
     for n in (2, 4):
         for (sa, sb) in ((1e-12, 1.0), (1e12, 1.0), (1e-10, 1e-10), (1.0, 1e-15), (1e8, 1e-8)):
@@ -176,6 +183,10 @@ def run_case(case, seed):
         Pop = None if P is None else (lambda r: P @ r)
     else:
         Aop = sp.linop.MatMul([n, 1], A)
+        if case.get("composite"):
+            Msq = np.linalg.cholesky(A - 0.25 * np.eye(n)).conj().T      # A = Msq^H Msq + 0.25 I, Msq complex upper triangular
+            Mop = sp.linop.MatMul([n, 1], Msq)
+            Aop = (Mop.H * Mop if case["composite"] == "MH*M" else Mop.N) + 0.25 * sp.linop.Identity([n, 1])
         if strided:
             buf = np.zeros((n, 3), complex)
             xc = buf[:, 1:2]
